@@ -147,7 +147,9 @@ pub fn part<E: Encodable>(name: &'static str, e: &E) -> Part {
         match e.encode(&mut v) {
             Ok(()) if v.out == bytes => {}
             Ok(()) => chunked = Err(format!("a sink that is interrupted (ErrorKind::Interrupted) every other call received {} bytes instead of {}", v.out.len(), bytes.len())),
-            Err(er) => chunked = Err(format!("a sink that is interrupted (ErrorKind::Interrupted) every other call: the encoder gave up with {:?}", er)),
+            // handing the interruption on as an error claims nothing about the bytes written: acceptable
+            Err(er) if er.kind() == io::ErrorKind::Interrupted => {}
+            Err(er) => chunked = Err(format!("a sink that is interrupted (ErrorKind::Interrupted) every other call: the encoder failed with {:?}", er)),
         }
     }
     Part { name, reported: e.encode_len(), bytes, chunked, result }
